@@ -12,6 +12,8 @@ import (
 	"sync"
 	"time"
 
+	"github.com/skx/evalfilter/v2/object"
+
 	"verif/internal/eng"
 	"verif/internal/ev"
 	"verif/internal/gast"
@@ -358,6 +360,7 @@ func c08(c *ev.Ctx) {
 	}
 	c.Sample(map[string]interface{}{"kind": "text", "script": clip(cases[0].Script, 200)})
 	c.Sample(map[string]interface{}{"kind": "struct", "script": cases[nText+2*len(c08FaultScripts)].Script, "object": gen.RandStruct(rand.New(rand.NewSource(cases[nText+2*len(c08FaultScripts)].ObjSeed)), 4, 45, 20).Desc})
+	c08UsableAfterwards(c)
 	c08Probes(c, self, work)
 }
 
@@ -418,6 +421,39 @@ func c08ParseLog(path string) (done bool, last int, results map[int]string) {
 		}
 	}
 	return done, last, results
+}
+
+// c08UsableAfterwards: after runs that failed in every way, the same evaluator still
+// gives the right answer for a harmless object.
+func c08UsableAfterwards(c *ev.Ctx) {
+	script := `function walk(n) { if (n <= 0) { if (Mode == 1) { panic("deep"); } if (Mode == 2) { return 1 % Zero; } if (Mode == 3) { return walk(); } if (Mode == 4) { return [1]["k"]; } if (Mode == 5) { return hostpanic(); } return 0; } return 1 + walk(n - 1); } foreach e in [1, 2] { foreach f in [3] { if (Mode > 0) { return walk(Depth); } } } return walk(Depth);`
+	for _, noOpt := range []bool{false, true} {
+		id := fmt.Sprintf("usable-afterwards/%v", noOpt)
+		if !c.Want(id) {
+			continue
+		}
+		evr, err := eng.New(script, eng.Options{NoOptimize: noOpt, Budget: 50000000, Funcs: map[string]func([]object.Object) object.Object{
+			"hostpanic": func(a []object.Object) object.Object { panic("host function panicked") }}})
+		if err != nil {
+			c.Violation(id, "prepare", map[string]interface{}{"summary": err.Error()})
+			continue
+		}
+		for round := 0; round < c.Pick(12, 60); round++ {
+			mode := 1 + round%5
+			o := evr.Exec(map[string]interface{}{"Mode": mode, "Depth": 1800, "Zero": 0})
+			c.Case(fmt.Sprint(id, round), true)
+			if o.Panicked || o.Err == nil {
+				c.Violation(id, "fault did not come back as an error", map[string]interface{}{"summary": fmt.Sprintf("mode %d: %s", mode, o.Desc()), "script": script})
+				break
+			}
+			ok := evr.Exec(map[string]interface{}{"Mode": 0, "Depth": 9000, "Zero": 0})
+			b, rerr, pan, _ := evr.RunBool(map[string]interface{}{"Mode": 0, "Depth": 50, "Zero": 0})
+			if ok.Desc() != "INTEGER:9000" || pan || rerr != nil || !b {
+				c.Violation(id, "evaluator not usable after faults", map[string]interface{}{"summary": fmt.Sprintf("after %d faulting runs (last mode %d) a harmless run gives %s %s (expected INTEGER:9000), Run gives %v err=%v", round+1, mode, ok.Desc(), errText(ok.Err), b, rerr), "script": script})
+				break
+			}
+		}
+	}
 }
 
 // known findings: inputs that overflow the Go stack (fatal, unrecoverable)
